@@ -307,6 +307,30 @@ fn c25_fetcher_result_before_fetch() {
     std::mem::forget(f);
 }
 
+/// Results that were never asked for: a fetch result for the *local node* (the property's
+/// quantifier includes it) must not be counted towards the target or the progress.
+#[kani::proof]
+#[kani::unwind(7)]
+fn c25_fetcher_never_counts_local() {
+    let Some((mut f, m)) = any_fetcher() else { return };
+    let local = Id(m.local.trailing_zeros() as u8);
+    let flow = f.fetch_complete(local, FetchResult::Success);
+    match flow {
+        ControlFlow::Break(s) => {
+            // only possible when the target asks for nothing (replication bound 0)
+            assert!(m.reached(), "C25: a result for the local node completed the fetch target");
+            assert!(s.progress().succeeded() == 0, "C25: the fetcher counted the local node as a successful replica");
+            std::mem::forget(s);
+        }
+        ControlFlow::Continue(p) => {
+            assert!(!m.reached());
+            assert!(p.succeeded() == 0, "C25: the fetcher counted the local node as a successful replica");
+        }
+    }
+    kani::cover!(true);
+    std::mem::forget(f);
+}
+
 #[kani::proof]
 #[kani::unwind(7)]
 fn c25_fetcher_one_round() {
